@@ -198,20 +198,25 @@ Fixpoint find_in_stripes (t : nat) (ss : list (list chunk)) (k : nat) : option (
 (* Store.Read of [len] bytes at [off] of a piece of [size] bytes: bytes returned *)
 Definition ts_read_count (size off len : N) : N := if size <=? off then 0 else N.min len (size - off).
 
-(* readOneTractRS + reconstructOneTract.  blank: hosts the curator reports as "" ; fail: hosts whose reads fail *)
-Definition read_rs (s : st) (k j : nat) (e : ext) (blank fail : list N) (o w : N) : tres :=
+(* readOneTractRS + reconstructOneTract.  blank: hosts the curator reports as "" ; fail: hosts whose reads fail.
+   [fx] selects the tree: false = the code as it is (request clipped to min(len, RS.Length), finding F15),
+   true = with fixes/F15-rs-read-clip-to-tract.patch (clipped to RS.Length - thisOffset; nothing to fetch =>
+   answered locally with EOF).  run_case uses [f15_fixed] below. *)
+Definition read_rs (fx : bool) (s : st) (k j : nat) (e : ext) (blank fail : list N) (o w : N) : tres :=
   let chs := nth k (s_stripes s) [] in
   let hosts := nth k (s_hosts s) [] in
   let n := s_n s in
   let size := s_target s in
-  let rlen := N.min w (e_len e) in
+  let rlen := if fx then (if e_len e <=? o then 0 else N.min w (e_len e - o)) else N.min w (e_len e) in
+  if fx && (rlen =? 0) then {| r_wanted := w; r_read := 0; r_err := 1; r_buf := zeros w |} else
   let offset := e_off e + o in
   let hj := nth j hosts 0 in
   if negb (memN hj blank || memN hj fail) then
     (* direct read of the piece *)
     let rd := ts_read_count size offset rlen in
     let tserr := if rd <? rlen then 1 else 0 in
-    {| r_wanted := w; r_read := rd; r_err := if e_len e <? w then 1 else tserr;
+    let short := if fx then rlen <? w else e_len e <? w in
+    {| r_wanted := w; r_read := rd; r_err := if short then 1 else tserr;
        r_buf := piece_window s chs j offset rd ++ zeros (w - rd) |}
   else
     let failed := {| r_wanted := w; r_read := 0; r_err := 2; r_buf := zeros w |} in
@@ -233,11 +238,11 @@ Definition read_rs (s : st) (k j : nat) (e : ext) (blank fail : list N) (o w : N
            r_buf := o' ++ zeros (w - rlen) |}
     end.
 
-Definition read_tract (s : st) (rs : bool) (blank fail : list N) (t : nat) (o w : N) : tres :=
+Definition read_tract (fx : bool) (s : st) (rs : bool) (blank fail : list N) (t : nat) (o w : N) : tres :=
   let tr := nth t (s_tracts s) dummy_tract in
   if rs then
     match find_in_stripes t (s_stripes s) O with
-    | Some (k, j, e) => read_rs s k j e blank fail o w
+    | Some (k, j, e) => read_rs fx s k j e blank fail o w
     | None => read_repl tr o w
     end
   else read_repl tr o w.
@@ -273,7 +278,7 @@ Fixpoint fold_results (rs : list tres) (pad_all : bool) (read : N) : N * N :=
   end.
 
 (* result of Blob.ReadAt(len bytes at off): (n, error class, b[:n]) *)
-Definition read_at (s : st) (rs : bool) (blank fail : list N) (blob : list nat) (off len : N) : N * N * vec :=
+Definition read_at (fx : bool) (s : st) (rs : bool) (blank fail : list N) (blob : list nat) (off len : N) : N * N * vec :=
   if len =? 0 then (0, 0, []) else
   let start := off / TL in
   let endt := (off + len + TL - 1) / TL in
@@ -285,9 +290,12 @@ Definition read_at (s : st) (rs : bool) (blank fail : list N) (blob : list nat) 
   let cnt := if pad_all then got - 1 else got in
   let ts := firstn (N.to_nat cnt) (skipn (N.to_nat start) blob) in
   let rgs := ranges (length ts) off len 0 in
-  let results := map (fun p => read_tract s rs blank fail (fst p) (fst (snd p)) (snd (snd p))) (combine ts rgs) in
+  let results := map (fun p => read_tract fx s rs blank fail (fst p) (fst (snd p)) (snd (snd p))) (combine ts rgs) in
   let '(rd, err) := fold_results results pad_all 0 in
   (rd, err, firstn (N.to_nat rd) (flat_map r_buf results)).
+
+(* which tree run_case models: the unrepaired code (F15 is a known finding) *)
+Definition f15_fixed : bool := false.
 
 (* ---------- wire helpers ---------- *)
 Definition zN (z : Z) : N := Z.to_N z.
@@ -452,14 +460,14 @@ Definition step (s : st) (op : list Z) : st * list Z :=
       | None => (s, bad)
       end
   | 31%Z :: b :: off :: len :: [] =>
-      let '(rd, err, bytes) := read_at s false [] [] (nth (Z.to_nat b) (s_blobs s) []) (zN off) (zN len) in
+      let '(rd, err, bytes) := read_at f15_fixed s false [] [] (nth (Z.to_nat b) (s_blobs s) []) (zN off) (zN len) in
       (s, Nz rd :: Nz err :: map Nz bytes)
   | 32%Z :: b :: off :: len :: rest =>
       match take_list rest with
       | Some (blank, rest') =>
           match take_list rest' with
           | Some (fail, []) =>
-              let '(rd, err, bytes) := read_at s true (map zN blank) (map zN fail) (nth (Z.to_nat b) (s_blobs s) []) (zN off) (zN len) in
+              let '(rd, err, bytes) := read_at f15_fixed s true (map zN blank) (map zN fail) (nth (Z.to_nat b) (s_blobs s) []) (zN off) (zN len) in
               (s, Nz rd :: Nz err :: map Nz bytes)
           | _ => (s, bad)
           end
@@ -472,8 +480,8 @@ Definition step (s : st) (op : list Z) : st * list Z :=
           match take_list rest' with
           | Some (fail, []) =>
               let blob := nth (Z.to_nat b) (s_blobs s) [] in
-              let '(rd1, err1, bytes1) := read_at s false [] [] blob (zN off) (zN len) in
-              let '(rd2, err2, bytes2) := read_at s true (map zN blank) (map zN fail) blob (zN off) (zN len) in
+              let '(rd1, err1, bytes1) := read_at f15_fixed s false [] [] blob (zN off) (zN len) in
+              let '(rd2, err2, bytes2) := read_at f15_fixed s true (map zN blank) (map zN fail) blob (zN off) (zN len) in
               (* input class of the request: 1 = in-tract offset 0, 2 = offset > 0 and the range ends inside the
                  tract, 3 = offset > 0 and the range crosses the tract's end, 4 = zero-length tract *)
               let o := zN off mod TL in
